@@ -149,6 +149,80 @@ def ldt_routes(cal_ord, day, nod):
         pass
 
 
+def ld_routes(cal_ord, day):
+    """one LocalDate (calendar, day number) by many routes; years <= 0 are frequent in the generator because the
+    packed year/month/day value changes sign there"""
+    P = _P()
+    from pyoda_time._calendar_ordinal import _CalendarOrdinal
+    c = P.CalendarSystem._for_ordinal(_CalendarOrdinal(cal_ord))
+    base = P.LocalDate._ctor(days_since_epoch=day, calendar=c)
+    y, m, d = base.year, base.month, base.day
+    yield "days-ctor", base
+    yield "fields-ctor", P.LocalDate(y, m, d, c)
+    for k in (1, -1, 40, -40, 400, -400):
+        try:
+            yield f"plus_days({k}) from a neighbour", P.LocalDate._ctor(days_since_epoch=day - k, calendar=c).plus_days(k)
+        except (ValueError, OverflowError):
+            pass
+    for k in (1, -1, 4):
+        try:
+            src = P.LocalDate(y - k, m, d, c)
+            r = src.plus_years(k)
+            if (r.year, r.month, r.day) == (y, m, d):
+                yield f"plus_years({k})", r
+        except (ValueError, OverflowError):
+            pass
+    for k in (1, -1, 12):
+        try:
+            r = base.plus_months(k).plus_months(-k)
+            if (r.year, r.month, r.day) == (y, m, d):
+                yield f"plus_months({k}) and back", r
+        except (ValueError, OverflowError):
+            pass
+    for other in (P.CalendarSystem.iso, P.CalendarSystem.julian, P.CalendarSystem.gregorian):
+        if other is not c:
+            try:
+                yield f"with_calendar from {other.id}", P.LocalDate._ctor(days_since_epoch=day, calendar=other).with_calendar(c)
+            except (ValueError, OverflowError):
+                pass
+    try:
+        yield "LocalDateTime.date", (base.at_midnight().plus_nanoseconds(5)).date
+        yield "to_year_month.on_day_of_month", base.to_year_month().on_day_of_month(d)
+    except (ValueError, OverflowError, AttributeError):
+        pass
+    if cal_ord == 0:
+        try:
+            i = P.Instant._ctor(days=day, nano_of_day=1234)
+            yield "Instant.in_utc().date", i.in_utc().date
+            yield "Instant.with_offset.date", i.with_offset(P.Offset.zero).date
+        except (ValueError, OverflowError):
+            pass
+        try:
+            if not (m == 2 and d == 29):
+                yield "AnnualDate.in_year", P.AnnualDate(m, d).in_year(y)
+        except (ValueError, OverflowError, AttributeError):
+            pass
+
+
+def ym_routes(cal_ord, day):
+    P = _P()
+    for name, v in ld_routes(cal_ord, day):
+        try:
+            yield "to_year_month of " + name, v.to_year_month()
+        except (ValueError, OverflowError):
+            pass
+
+
+def _derived_values(kind, v):
+    """values built from a date: they must be equal whenever the dates are"""
+    P = _P()
+    if kind != "localdate":
+        return []
+    out = [("LocalDateTime", v.at_midnight()), ("OffsetDate", P.OffsetDate(v, P.Offset.zero)),
+           ("DateInterval", P.DateInterval(v, v))]
+    return out
+
+
 def _check_group(kind, key, routes):
     P = _P()
     vals = []
@@ -170,6 +244,12 @@ def _check_group(kind, key, routes):
             return {"key": f"{kind}-route-dependent-order", "what": f"{kind} {key}: compare_to between routes '{name}' and '{n0}' is {v.compare_to(v0)}"}
         if (v < v0) or (v > v0) or not (v <= v0) or not (v >= v0):
             return {"key": f"{kind}-route-dependent-order", "what": f"{kind} {key}: ordering operators separate routes '{name}' and '{n0}'"}
+        for (dn, dv), (_, d0) in zip(_derived_values(kind, v), _derived_values(kind, v0)):
+            if not (dv == d0) or hash(dv) != hash(d0):
+                return {"key": f"{kind}-route-dependent-equality",
+                        "what": f"{kind} {key}: the {dn} built from route '{name}' is not == / does not hash like the one built from route '{n0}'"}
+        if len({v, v0}) != 1:
+            return {"key": f"{kind}-route-dependent-hash", "what": f"{kind} {key}: a set keeps the values of routes '{name}' and '{n0}' apart"}
         if kind in ("instant", "duration"):
             nod = v._nanosecond_of_day if kind == "instant" else v._nanosecond_of_floor_day
             if not (0 <= nod < NPD):
@@ -183,6 +263,10 @@ def case_fn(case):
         return _check_group(kind, f"{case[1]} ns", instant_routes(case[1]))
     if kind == "duration":
         return _check_group(kind, f"{case[1]} ns", duration_routes(case[1]))
+    if kind == "ld":
+        return _check_group("localdate", f"cal {case[1]} day {case[2]}", ld_routes(case[1], case[2]))
+    if kind == "ym":
+        return _check_group("yearmonth", f"cal {case[1]} month of day {case[2]}", ym_routes(case[1], case[2]))
     if kind == "ldt":
         return _check_group("localdatetime", f"cal {case[1]} day {case[2]} nod {case[3]}", ldt_routes(case[1], case[2], case[3]))
     raise ValueError(kind)
@@ -200,7 +284,14 @@ def gen_cases(rng, n):
             nod = rng.randrange(86400) * NPS
         else:
             nod = rng.randrange(NPD)
-        if r < 0.4:
+        if r < 0.25:
+            o = rng.choice([0, 0, 1, 2, 2, 5, 3, 4, 6, 14])
+            # around year 1 / year 0 / negative years of the Gregorian-like calendars, and anywhere
+            day = rng.choice([-719162 + rng.randint(-1500, 800), -719162 - rng.randint(0, 3000000), rng.randint(-200000, 200000)])
+            if o not in (0, 1, 2):
+                day = rng.randint(-200000, 200000)
+            out.append((rng.choice(["ld", "ld", "ym"]), o, day))
+        elif r < 0.5:
             d = rng.choice([0, -1, 1, IMIN + 2, IMAX - 2, rng.randint(-800, 800), rng.randint(IMIN + 2, IMAX - 2)])
             out.append(("instant", d * NPD + nod))
         elif r < 0.7:
